@@ -46,7 +46,7 @@ TASK = ("YOUR TASK: find concrete inputs (schemas, values, byte strings, operati
         "confirmed by actually running the real code. Writing a small random generator of schemas / values / byte strings and running "
         "it for a few minutes against an independent oracle you write from docs/encoding.rst is encouraged.")
 
-EXTRA = ("This repository has ALREADY been audited {n} times for this property and about 155 defects were found (124 repaired, listed "
+EXTRA = ("This repository has ALREADY been audited {n} times for this property and about 176 defects were found (143 repaired, listed "
          "below); what remains is likely to sit in less obvious places: interactions of three features, rarely used options, resource "
          "behaviour (time, memory, recursion), platform details (optimisation levels, locales, Python 2/3 leftovers), documentation "
          "claims (docs/*.rst) that the code does not honour, and incomplete repairs (another spelling of a repaired input). "
@@ -68,6 +68,8 @@ DELIV = ("DELIVERABLES (write them under {wt}-scratch/): for EACH distinct viola
 
 def main():
     rd, times, ids = sys.argv[1], sys.argv[2], sys.argv[3:]
+    if os.environ.get('AUDIT_FOCUS'):
+        FOCUS.update(json.load(open(os.environ['AUDIT_FOCUS'])))
     props = {}
     for line in open(os.path.join(VERIF, 'properties.jsonl')):
         p = json.loads(line)
